@@ -41,6 +41,45 @@ def replay_lines(rep, binary, d, lines, name, cover):
         rep.cov["traces_validated_against_impl"] += 1
 
 
+def capture_runs():
+    """Operation sequences made from the repository's captures (read from /repo at check time)."""
+    arrs = common.extract_captures()
+    flights = []
+    for src, b in arrs:
+        recs, o = [], 0
+        while o + 5 <= len(b) and b[o] in (20, 21, 22, 23, 24) and b[o + 1] == 3 and o + 5 + b[o + 3] * 256 + b[o + 4] <= len(b):
+            n = b[o + 3] * 256 + b[o + 4]
+            recs.append((b[o], b[o + 1] * 256 + b[o + 2], b[o + 5:o + 5 + n]))
+            o += 5 + n
+        if recs and o == len(b):
+            flights.append((src, recs))
+    # captures that are consecutive fragments of one flight (name_1, name_2): also as one flight
+    byname = {}
+    for src, recs in flights:
+        byname.setdefault(src.rsplit("_", 1)[0], []).append((src, recs))
+    for base, parts in byname.items():
+        if len(parts) > 1 and all(s.rsplit("_", 1)[-1].split(".")[0].isdigit() for s, _ in parts):
+            flights.append((base + "_*", [r for _, recs in sorted(parts) for r in recs]))
+    op = lambda ct, ver, data: {"op": "parse_record", "ct": ct, "ver": ver, "data": [{"lit": list(data), "fill": [0, 0, 0]}]}
+    runs = []
+    for n, (src, recs) in enumerate(flights):
+        total = sum(len(r[2]) for r in recs)
+        runs.append({"id": "cap%d:%s:as-is" % (n, src), "ops": [op(*r) for r in recs]})
+        for k in (1, 7, 100, 1000):
+            if total // k > 60 or k >= total:
+                continue
+            ops = []
+            for ct, ver, data in recs:
+                if ct in (20, 21):       # never fragmented by a conforming peer (and parsed without copy)
+                    ops.append(op(ct, ver, data))
+                else:
+                    ops += [op(ct, ver, data[i:i + k]) for i in range(0, max(len(data), 1), k)]
+            runs.append({"id": "cap%d:%s:k=%d" % (n, src, k), "ops": ops})
+    if len(runs) < 10:
+        raise vlib.ToolError("only %d capture runs could be built from /repo's test vectors" % len(runs))
+    return runs
+
+
 def vlib_bytes(op):
     out = []
     for p in op["data"]:
@@ -82,6 +121,19 @@ def run(tier):
     recorded = vlib.read_ndjson(rpath)
     if rc == 3:
         rep.violation("hang:defrag-fuzz", {}, None, vlib.read_ndjson(rpath + ".timeout"), "watchdog: a call did not return within 5 s", "run")
+    # (b+) REAL flights: the repository's own captures, record by record as captured, and re-fragmented into records of
+    #      1 / 7 / 100 / 1000 payload bytes (what a peer may legally do), on the real object; validated with the random runs
+    cap_in, cap_out = os.path.join(d3, "capture_runs.in.ndjson"), os.path.join(d3, "capture_runs.out.ndjson")
+    cruns = capture_runs()
+    vlib.write_ndjson(cap_in, [{"id": r["id"], "prefix": [], "tests": r["ops"], "seq": True} for r in cruns])
+    rc, _ = vlib.run_harness(binary, ["defrag", cap_in, cap_out])
+    couts = {o["id"]: o for o in vlib.read_ndjson(cap_out)}
+    for r in cruns:
+        if r["id"] not in couts:
+            raise vlib.ToolError("no observation for capture run %s" % r["id"])
+        recorded.append({"id": r["id"], "ops": r["ops"], "results": couts[r["id"]]["results"]})
+    rep.cov["capture_runs"] = {"runs": len(cruns), "operations": sum(len(r["ops"]) for r in cruns),
+                               "delivered_messages": sum(len(x["res"].get("v") or []) for r in cruns for x in couts[r["id"]]["results"] if x["res"]["k"] == "ok")}
     slim = os.path.join(d3, "runs.slim.ndjson")
     vlib.write_ndjson(slim, [{"id": r["id"], "ops": r["ops"],
                               "results": [{"res": x["res"], "inprog": x["inprog"], "buflen": x["buflen"], "rem_ok": x["rem_ok"]} for x in r["results"]]}
